@@ -51,7 +51,8 @@ MACRO_LIB = ("DEFINE PRIO 30 <ID> ( <ARGS> ) AS RUN $0 WITH $1 END END DEFINE\n"
              # LOOP through a temporary: the bound is copied at entry, so what the body does to the temporary is irrelevant
              "DEFINE PRIO 5 REPN <ID> { <P> } AS #0 := $0; LOOP #0 DO $1 END END DEFINE\n"
              "DEFINE PRIO 5 REPZ <ID> { <P> } AS #0 := $0; LOOP #0 DO $1; #0 := 0 END END DEFINE\n"
-             "DEFINE PRIO 5 REPUP <ID> { <P> } AS #0 := $0; LOOP #0 DO #0 := #0 + 1; $1 END END DEFINE\n")
+             "DEFINE PRIO 5 REPUP <ID> { <P> } AS #0 := $0; LOOP #0 DO #0 := #0 + 1; $1 END END DEFINE\n"
+             "DEFINE PRIO 5 ROT12 <ID> <ID> <ID> <ID> <ID> <ID> <ID> <ID> <ID> <ID> <ID> <ID> AS $11 := $0 ; $10 := $1 ; $2 := $11 END DEFINE\n")
 
 
 def has_zero_call(v):
@@ -148,7 +149,17 @@ def gen_programs(ctx, n, big=False, layouts=('canonical', 'random', 'multi', 'ma
                     # the detector grammar's <P> cannot derive a RUN without arguments: such bodies stay in LOOP syntax
                     fmt[st[-1]] = None if zero_call_in(st[2]) else r.choice([None, None, 'REPN', 'REPZ', 'REPUP'])
                 return fmt[st[-1]]
-            text, L0 = sources.canonical(defs, main, r, pv=pv_macro, loopfmt=loopfmt)
+            if r.random() < 0.4:
+                # a wide macro (12 slots, two-digit `$n` in the body) at the start of the main script:
+                # `ROT12 v0 … v11` means `v11 := v0 ; v10 := v1 ; v2 := v11`
+                vs = [r.choice(g.vars + ['w%d' % j for j in range(4)]) for _ in range(12)]
+                pre = sources.number([], [['assign', vs[11], ('var', vs[0])], ['assign', vs[10], ('var', vs[1])], ['assign', vs[2], ('var', vs[11])]])[1]
+                tdefs, _ = sources.canonical(defs, [], r, pv=pv_macro, loopfmt=loopfmt)
+                tmain, _ = sources.canonical([], main, r, pv=pv_macro, loopfmt=loopfmt)
+                text = tdefs + 'ROT12 ' + ' '.join(vs) + (';\n' if main else '\n') + tmain
+                main = pre + main
+            else:
+                text, L0 = sources.canonical(defs, main, r, pv=pv_macro, loopfmt=loopfmt)
             files = {b'm': b'include "lib"\n' + text.encode(), b'lib': MACRO_LIB.encode()}
         out.append({'defs': defs, 'main': main, 'mainf': b'm', 'files': files, 'layout': lay, 'L': L,
                     'text': {k.decode(): v.decode('latin1') for k, v in files.items()}})
